@@ -186,7 +186,7 @@ def lean_build(targets):
 # Source tie (DESIGN.md 11.10): functions whose Lean text is regenerated from /repo's source on every run, per property.
 SOURCE_TIE = {
     'C02': ['_ncd_or_nsc'],
-    'C19': ['minrange2minmax'],
+    'C19': ['minrange2minmax', 'shift_and_scale', 'minmax_scale'],
     'C04': ['calc_base_height'],
     'C06': ['_get_min_sep_for_height'],
     'C17': ['significant_cloud'],
